@@ -422,5 +422,35 @@ pub fn run_c15(args: &Args) -> Report {
             rep.sample(done.iter().map(|s| if s.len() > 40 { format!("{}…", &s[..40]) } else { s.clone() }).collect::<Vec<_>>().join(" "));
         }
     }
+    // witness scenario, evaluated with the USER's notion of "placed" (= went through an earlier cycle), which the
+    // histories above cannot use: elements of a kind that had no element in the loaded file keep uid 0 for ever and are
+    // re-sorted (by tag, then name) with every later new element - known finding C15-end-group
+    if args.replay.is_none() {
+        let text = "ASAP2_VERSION 1 71\n/begin PROJECT p \"\"\n/begin MODULE m \"\"\n/begin GROUP g1 \"\"\n/end GROUP\n/end MODULE\n/end PROJECT\n";
+        if let Ok(mut file) = load(text) {
+            let mut done: Vec<String> = vec![];
+            let mut orders: Vec<Vec<String>> = vec![];
+            let mut panicked = false;
+            for (k, n) in [(4usize, "zz"), (4, "aa"), (2, "fnew")] {
+                push_new(&mut file, k, n);
+                done.push(format!("push:{k}:{n}"));
+                done.push("sni".into());
+                if catch(|| file.sort_new_items()).is_err() {
+                    panicked = true;
+                    break;
+                }
+                orders.push(written_children(&file.write_to_string()).first().cloned().unwrap_or_default());
+            }
+            rep.case(&(text, "end-group witness"), true);
+            rep.bump("family:end-group-witness");
+            let replay = format!("{} {}", hex(text.as_bytes()), done.join(" "));
+            let want: [&[&str]; 3] = [&["GROUP g1", "UNIT zz"], &["GROUP g1", "UNIT zz", "UNIT aa"], &["GROUP g1", "UNIT zz", "UNIT aa", "FUNCTION fnew"]];
+            if panicked || orders.len() != 3 || orders[0] != want[0] {
+                rep.fail("placement", replay, format!("end-group witness: unexpected first cycle {orders:?}"));
+            } else if orders[1] != want[1] || orders[2] != want[2] {
+                rep.fail("end-group-reordered", replay, format!("cycle 2 wrote {:?} (a reader of the property expects {:?}: UNIT zz was placed by cycle 1), cycle 3 wrote {:?} (expected {:?}: a FUNCTION, none placed, goes to the end)", orders[1], want[1], orders[2], want[2]));
+            }
+        }
+    }
     rep
 }
